@@ -867,6 +867,14 @@ func known(c Case, v *core.Violation) string {
 			var a []altT
 			for i, r := range s {
 				if !strings.ContainsRune("\n\r\t \u2028\u2029\u0085", r) {
+					// nested in a list or map the block scalar is also
+					// under-indented for its indicator and ends at once: what
+					// remains is read as ordinary text, so a `#` line is a
+					// comment and the string comes back empty (any other text
+					// is refused with an error)
+					if r == '#' {
+						a = append(a, altT{"", nl})
+					}
 					break
 				}
 				a = append(a, altT{s[i+len(string(r)):], nl})
